@@ -390,6 +390,8 @@ class _Null(object):
     """build a stub object for the NULL singleton"""
     def __repr__(self):
         return "NULL"
+    def __reduce__(self):
+        return "NULL" # pickle as the singleton: keys holding NULL must compare equal after a round trip
 NULL = _Null()
 
 
